@@ -163,7 +163,7 @@ impl Check for C20 {
     fn run(&self, ctx: &Ctx, idx: u64, rec: &mut Recorder) {
         let p = plan();
         let (env, golden, got) = p[idx as usize].clone();
-        let probe = PathBuf::from(format!("{}/.build/harness/verif/golden_probe", VERIF_ROOT));
+        let probe = std::env::var("VERIF_GOLDEN_PROBE").ok().filter(|s| !s.is_empty()).map(PathBuf::from).unwrap_or_else(|| PathBuf::from(format!("{}/.build/harness/verif/golden_probe", VERIF_ROOT)));
         let base = ctx.scratch.join(format!("c20-{}", idx));
         let dir = base.join("golden-dir");
         let _ = std::fs::remove_dir_all(&base);
